@@ -338,3 +338,164 @@ pub fn prom_families(lines: &[PromLine]) -> Result<Vec<PromFamily>, String> {
     }
     Ok(fams)
 }
+
+// ---------------------------------------------------------------------------------------------
+// Hand-written protobuf reader for metrics-exporter-tcp's event.proto (no prost).
+
+#[derive(Debug, Clone, PartialEq)]
+pub enum TcpEvent {
+    Metadata { name: String, metric_type: u64, unit: Option<String>, description: Option<String> },
+    Metric { name: String, labels: Vec<(String, String)>, op: u32, value_bits: u64, has_timestamp: bool },
+}
+
+fn pb_varint(b: &[u8], pos: &mut usize) -> Result<u64, String> {
+    let mut v = 0u64;
+    let mut shift = 0;
+    loop {
+        let Some(x) = b.get(*pos) else { return Err("truncated varint".into()) };
+        *pos += 1;
+        v |= ((*x & 0x7f) as u64) << shift;
+        if x & 0x80 == 0 {
+            return Ok(v);
+        }
+        shift += 7;
+        if shift > 63 {
+            return Err("varint too long".into());
+        }
+    }
+}
+
+enum PbVal<'a> {
+    Varint(u64),
+    Fixed64(u64),
+    Bytes(&'a [u8]),
+    Fixed32(u32),
+}
+
+fn pb_fields(b: &[u8]) -> Result<Vec<(u32, PbVal<'_>)>, String> {
+    let mut pos = 0;
+    let mut out = vec![];
+    while pos < b.len() {
+        let tag = pb_varint(b, &mut pos)?;
+        let field = (tag >> 3) as u32;
+        match tag & 7 {
+            0 => out.push((field, PbVal::Varint(pb_varint(b, &mut pos)?))),
+            1 => {
+                if pos + 8 > b.len() {
+                    return Err("truncated fixed64".into());
+                }
+                out.push((field, PbVal::Fixed64(u64::from_le_bytes(b[pos..pos + 8].try_into().unwrap()))));
+                pos += 8;
+            }
+            2 => {
+                let n = pb_varint(b, &mut pos)? as usize;
+                if pos + n > b.len() {
+                    return Err("length-delimited field overruns its message".into());
+                }
+                out.push((field, PbVal::Bytes(&b[pos..pos + n])));
+                pos += n;
+            }
+            5 => {
+                if pos + 4 > b.len() {
+                    return Err("truncated fixed32".into());
+                }
+                out.push((field, PbVal::Fixed32(u32::from_le_bytes(b[pos..pos + 4].try_into().unwrap()))));
+                pos += 4;
+            }
+            w => return Err(format!("unsupported wire type {}", w)),
+        }
+    }
+    Ok(out)
+}
+
+fn pb_str(v: &PbVal) -> Result<String, String> {
+    match v {
+        PbVal::Bytes(b) => String::from_utf8(b.to_vec()).map_err(|_| "string field is not UTF-8".to_string()),
+        _ => Err("expected a length-delimited string".into()),
+    }
+}
+
+pub fn decode_tcp_event(msg: &[u8]) -> Result<TcpEvent, String> {
+    let top = pb_fields(msg)?;
+    if top.len() != 1 {
+        return Err(format!("Event must hold exactly one of metadata/metric, found {} fields", top.len()));
+    }
+    match &top[0] {
+        (1, PbVal::Bytes(b)) => {
+            let (mut name, mut mt, mut unit, mut desc) = (String::new(), 0u64, None, None);
+            for (f, v) in pb_fields(b)? {
+                match (f, &v) {
+                    (1, _) => name = pb_str(&v)?,
+                    (2, PbVal::Varint(x)) => mt = *x,
+                    (3, _) => unit = Some(pb_str(&v)?),
+                    (4, _) => desc = Some(pb_str(&v)?),
+                    _ => return Err(format!("unexpected field {} in Metadata", f)),
+                }
+            }
+            Ok(TcpEvent::Metadata { name, metric_type: mt, unit, description: desc })
+        }
+        (2, PbVal::Bytes(b)) => {
+            let mut name = String::new();
+            let mut labels = vec![];
+            let mut op: Option<(u32, u64)> = None;
+            let mut ts = false;
+            for (f, v) in pb_fields(b)? {
+                match (f, &v) {
+                    (1, _) => name = pb_str(&v)?,
+                    (2, PbVal::Bytes(_)) => ts = true,
+                    (3, PbVal::Bytes(e)) => {
+                        let (mut k, mut val) = (String::new(), String::new());
+                        for (ef, ev) in pb_fields(e)? {
+                            match ef {
+                                1 => k = pb_str(&ev)?,
+                                2 => val = pb_str(&ev)?,
+                                _ => return Err("unexpected field in a labels map entry".into()),
+                            }
+                        }
+                        labels.push((k, val));
+                    }
+                    (4 | 5, PbVal::Varint(x)) => {
+                        if op.replace((f, *x)).is_some() {
+                            return Err("two operations in one Metric".into());
+                        }
+                    }
+                    (6..=9, PbVal::Fixed64(x)) => {
+                        if op.replace((f, *x)).is_some() {
+                            return Err("two operations in one Metric".into());
+                        }
+                    }
+                    _ => return Err(format!("unexpected field {} in Metric", f)),
+                }
+            }
+            let Some((op, value_bits)) = op else { return Err("Metric without an operation".into()) };
+            Ok(TcpEvent::Metric { name, labels, op, value_bits, has_timestamp: ts })
+        }
+        (f, _) => Err(format!("unexpected top-level field {} in Event", f)),
+    }
+}
+
+/// Splits a byte stream into whole length-delimited events; returns the decoded events and the
+/// number of trailing bytes that do not (yet) form a whole frame.
+pub fn split_tcp_stream(stream: &[u8]) -> Result<(Vec<TcpEvent>, usize), String> {
+    let mut pos = 0;
+    let mut out = vec![];
+    loop {
+        let start = pos;
+        if pos >= stream.len() {
+            return Ok((out, 0));
+        }
+        let mut p = pos;
+        let n = match pb_varint(stream, &mut p) {
+            Ok(n) => n as usize,
+            Err(_) => return Ok((out, stream.len() - start)),
+        };
+        if n > 64 * 1024 * 1024 {
+            return Err(format!("frame at offset {} announces {} bytes (torn stream?)", start, n));
+        }
+        if p + n > stream.len() {
+            return Ok((out, stream.len() - start));
+        }
+        out.push(decode_tcp_event(&stream[p..p + n]).map_err(|e| format!("frame at offset {} ({} bytes) does not decode as an Event: {}", start, n, e))?);
+        pos = p + n;
+    }
+}
